@@ -71,14 +71,16 @@ theorem C07_entitled_group_entries (room : RoomT) (old new res : AuthNode) (upd 
 
 /-- **C07 (a group that is new to a known room).** It is the candidate's, untouched; its row and its
     right entries are authored by admins of the extended room; its user entries by a user admin of
-    the group itself. (Its user-admin entries: only with the intended check — see the witness.) -/
+    the group itself or by an admin of the extended room (the rule of a stored group, since
+    findings/C10-new-group-users-accept-room-admin.patch). (Its user-admin entries: only with the intended check — see the witness.) -/
 theorem C07_new_groups (d : Defects) (room : RoomT) (old cand merged : RoomNode) (upd : Bool)
     (h : prepareWithHistory d room old cand = some (.ok (merged, upd))) :
     ∀ a ∈ merged.authNodes, old.authNodes.any (·.node.id = a.node.id) = false →
       a ∈ cand.authNodes ∧
       (extendAdmins old.adminNodes room merged.adminNodes).isAdmin a.node.author a.node.mdate = true ∧
       ∃ au, a.parse = .ok au ∧
-        (∀ n ∈ a.userNodes, au.canAdminUsers n.author n.mdate = true) ∧
+        (∀ n ∈ a.userNodes, au.canAdminUsers n.author n.mdate = true ∨
+          (extendAdmins old.adminNodes room merged.adminNodes).isAdmin n.author n.mdate = true) ∧
         (∀ n ∈ a.rightNodes, (extendAdmins old.adminNodes room merged.adminNodes).isAdmin n.author n.mdate = true) ∧
         (d.newGroupUserAdminUnchecked = false →
           ∀ n ∈ a.userAdminNodes, (extendAdmins old.adminNodes room merged.adminNodes).isAdmin n.author n.mdate = true) := by
